@@ -13,7 +13,8 @@ Inductive cside :=
 
 Inductive sside :=
 | SWait                           (* reading the request *)
-| SRunning (q : request)          (* request decoded, handler invoked and running *)
+| SQueued (q : request)           (* request decoded, waiting for the service to become ready (poll_ready back-pressure) *)
+| SRunning (q : request)          (* handler invoked and running *)
 | SWriting (r : response)         (* handler returned, writing the response *)
 | SDone                           (* response written and finished *)
 | SFailed                         (* ended with an error (logged), nothing invoked afterwards *)
@@ -33,7 +34,7 @@ Record stream := mkStream {
 Definition open_stream (w : bytes) : stream := mkStream w (CWriting 0) SWait 0 None 0 false false.
 
 Inductive label :=
-| Write (k : nat) | Fin | Recv (k : nat) | TryDecode | HandlerReturn | SFinish | CRead
+| Write (k : nat) | Fin | Recv (k : nat) | TryDecode | Dispatch | HandlerReturn | SFinish | CRead
 | Abandon | NoticeStop | NoticeReset.
 
 Section WithHandler.
@@ -81,12 +82,18 @@ Section WithHandler.
         match ss st with
         | SWait =>
             match dec_request max (firstn (delivered st) (wire st)) with
-            | Ok (q, _) =>
-                Some (mkStream (wire st) (cs st) (SRunning q) (delivered st) (resp_wire st)
-                               (S (invocations st)) (reset st) (stopped st))
+            | Ok (q, _) => Some (set_ss st (SQueued q))
             | Err EShort => None            (* keep reading *)
             | Err _ => Some (set_ss st SFailed)
             end
+        | _ => None
+        end
+    | Dispatch =>
+        (* the service is ready for this request: the handler is invoked (an always-ready service: at once) *)
+        match ss st with
+        | SQueued q =>
+            Some (mkStream (wire st) (cs st) (SRunning q) (delivered st) (resp_wire st)
+                           (S (invocations st)) (reset st) (stopped st))
         | _ => None
         end
     | HandlerReturn =>
@@ -128,6 +135,7 @@ Section WithHandler.
     | NoticeStop =>
         if stopped st then
           match ss st with
+          | SQueued _ => Some (set_ss st SDropped)     (* given up while waiting for readiness: never handed to the handler *)
           | SRunning _ => Some (set_ss st SDropped)
           | SWriting _ => Some (set_ss st SFailed)
           | _ => None
@@ -163,5 +171,5 @@ Section WithHandler.
   (** Streams not yet closed at the accepting side hold one unit of stream credit each. *)
   Definition open_count (c : conn) : nat := length (filter (fun st => negb (closed (ss st))) c).
 
-  Definition server_labels : list label := [TryDecode; HandlerReturn; SFinish; NoticeStop; NoticeReset].
+  Definition server_labels : list label := [TryDecode; Dispatch; HandlerReturn; SFinish; NoticeStop; NoticeReset].
 End WithHandler.
